@@ -16,8 +16,10 @@ import Cx.Spec.Regex
   parameter, exactly as they call `c.compileRegexp` in the code.
 
   Shapes kept as in the code: operand order of quantifier splits, `(x+)?` for `x*` when `canMatchEmpty(x)`,
-  repeats by unrolling copies through `compileConcat`, the "patch, else epsilon + patch" fall-backs (dead code in this
-  fragment, but transliterated), the silently ignored patch failure in `compileAlternate`, `OpNoMatch` being an
+  `x{n}` by unrolling copies through `compileConcat`, `x{m,}` as m-1 copies and a synthetic `OpPlus`, `x{m,n}` as m
+  copies and n-m nested optional copies built iteratively around one shared `final` epsilon (tree at e802781; before
+  it: m copies + `x*`, and m copies + a flat `x?x?…`), the "patch, else epsilon + patch" fall-backs (dead code in
+  this fragment, but transliterated), the silently ignored patch failure in `compileAlternate`, `OpNoMatch` being an
   unsupported operation of `compileRegexp`, no capture group 0 around the pattern in `CompileRegexp`, `compileNoMatch`
   = a Fail state and an unconnected epsilon (tree at b0fdb2d; before it the start was an epsilon into `InvalidState`).
 
@@ -254,19 +256,75 @@ def compileQuest (f : Rec) (r : Regex) (greedy : Bool) (b : Builder) : Option Fr
     | none => none
     | some b4 => some (split, endId, b4)
 
-/-- `compileRepeat` with `compileRepeatMin` / `compileRepeatExact` / `compileRepeatRange` -/
+/-- `compileRepeatMin`: `a{0,}` is `compileStar`; `a{m,}` (m ≥ 1) is m-1 copies followed by a synthetic `OpPlus`
+    (`len(subs) == 1`, i.e. m = 1: `compileRegexp` of the synthetic node alone) -/
+def compileRepeatMin (f : Rec) (r : Regex) (mn : Nat) (greedy : Bool) (b : Builder) : Option Frag :=
+  if mn = 0 then compileStar f r greedy b
+  else
+    let subs := List.replicate (mn - 1) r ++ [Regex.plus r greedy]
+    if subs.length = 1 then f (Regex.plus r greedy) b
+    else compileConcat f subs b
+
+/-- `compileRepeatExact` -/
+def compileRepeatExact (f : Rec) (r : Regex) (n : Nat) (b : Builder) : Option Frag :=
+  if n = 0 then some (emptyMatch b)
+  else if n = 1 then f r b
+  else compileConcat f (List.replicate n r) b
+
+/-- the first loop of `compileRepeatRange` (`for i := 0; i < minCount; i++`): the mandatory copies, chained by
+    `connect` (= `patchOrEps`); `start == InvalidState` tells the first copy.  Argument: the iterations left. -/
+def rangeMinLoop (f : Rec) (r : Regex) : Nat → (start end_ : Nat) → Builder → Option Frag
+  | 0, st, en, b => some (st, en, b)
+  | n+1, st, en, b =>
+    match f r b with
+    | none => none
+    | some (s, e, b1) =>
+      if st = invalid then rangeMinLoop f r n s e b1
+      else
+        match patchOrEps b1 en s with
+        | none => none
+        | some b2 => rangeMinLoop f r n st e b2
+
+/-- the second loop of `compileRepeatRange` (`for i := 0; i < maxCount-minCount; i++`): every optional copy is
+    compiled, then its quantifier split (continue = the copy, exit = `final`) is added, then the previous end is
+    connected to the split (or the split becomes the start when there is no mandatory copy) -/
+def rangeOptLoop (f : Rec) (r : Regex) (greedy : Bool) (final : Nat) : Nat → (start end_ : Nat) → Builder → Option Frag
+  | 0, st, en, b => some (st, en, b)
+  | n+1, st, en, b =>
+    match f r b with
+    | none => none
+    | some (s, e, b1) =>
+      let split := b1.size
+      let b2 := b1.push (quantSplit greedy s final)
+      if st = invalid then rangeOptLoop f r greedy final n split e b2
+      else
+        match patchOrEps b2 en split with
+        | none => none
+        | some b3 => rangeOptLoop f r greedy final n st e b3
+
+/-- `compileRepeatRange`: m copies, the shared `final` epsilon, the nested optional copies, `connect(end, final)` -/
+def compileRepeatRange (f : Rec) (r : Regex) (mn mx : Nat) (greedy : Bool) (b : Builder) : Option Frag :=
+  if mn > mx then none
+  else
+    match rangeMinLoop f r mn invalid invalid b with
+    | none => none
+    | some (st, en, b1) =>
+      let final := b1.size
+      let b2 := b1.push (.eps invalid)
+      match rangeOptLoop f r greedy final (mx - mn) st en b2 with
+      | none => none
+      | some (st', en', b3) =>
+        match patchOrEps b3 en' final with
+        | none => none
+        | some b4 => some (st', final, b4)
+
+/-- `compileRepeat` -/
 def compileRepeat (f : Rec) (r : Regex) (mn : Nat) (mx : Option Nat) (greedy : Bool) (b : Builder) : Option Frag :=
   match mx with
-  | none =>
-    if mn = 0 then compileStar f r greedy b
-    else compileConcat f (List.replicate mn r ++ [Regex.star r greedy]) b
+  | none => compileRepeatMin f r mn greedy b
   | some mx =>
-    if mn = mx then
-      if mn = 0 then some (emptyMatch b)
-      else if mn = 1 then f r b
-      else compileConcat f (List.replicate mn r) b
-    else if mn > mx then none
-    else compileConcat f (List.replicate mn r ++ List.replicate (mx - mn) (Regex.quest r greedy)) b
+    if mn = mx then compileRepeatExact f r mn b
+    else compileRepeatRange f r mn mx greedy b
 
 /-- `compileCapture` -/
 def compileCapture (f : Rec) (idx : Nat) (r : Regex) (b : Builder) : Option Frag :=
@@ -357,8 +415,8 @@ def compileTop (cfg : Config) (re : Regex) : Option NFA :=
         | none => build b4 s s
 
 mutual
-/-- the nesting depth `c.depth` reaches while compiling `re` (1 for a leaf; the synthetic `OpStar` / `OpQuest`
-    nodes of `compileRepeatMin` / `compileRepeatRange` cost one more level than the operand) -/
+/-- the nesting depth `c.depth` reaches while compiling `re` (1 for a leaf; the synthetic `OpPlus` node of
+    `compileRepeatMin` costs one more level than the operand; `compileRepeatRange` compiles the operand directly) -/
 def depth : Regex → Nat
   | .emptyMatch => 1
   | .noMatch => 1
@@ -372,7 +430,7 @@ def depth : Regex → Nat
   | .rep r mn mx _ =>
     match mx with
     | none => if mn = 0 then 1 + depth r else 2 + depth r
-    | some m => if mn = m then (if mn = 0 then 1 else 1 + depth r) else 2 + depth r
+    | some m => if mn = m then (if mn = 0 then 1 else 1 + depth r) else 1 + depth r
   | .cat rs => 1 + depthL rs
   | .alt rs => 1 + depthL rs
 def depthL : List Regex → Nat
